@@ -4,7 +4,7 @@
    what the implementation returned (exact rationals of its doubles).  No proofs. *)
 From Coq Require Import List Arith Bool ZArith.
 From Bignums Require Import BigZ BigQ.
-From BV Require Import AssemblyB.Defs AssemblyB.Model.
+From BV Require Import AssemblyB.Defs AssemblyB.Model AssemblyB.PotModel.
 Import ListNotations.
 
 (* ---- exact dyadic numbers m * 2^e and complex pairs of them ------------------------------------------ *)
@@ -128,3 +128,18 @@ Definition cmp_list (tol : dy) (model impl : list CQ) : list nat := failing_idx 
 (* number of model entries that are not exactly zero (evidence: non-trivial outputs) *)
 Definition count_nonzero (l : list CQ) : nat :=
   length (filter (fun a => negb (dy_is_zero (fst a) && dy_is_zero (snd a))) l).
+
+(* make_localised_space: tables of the implementation's localised space against the model *)
+Definition nat_lists_eqb (a b : list (list nat)) : bool :=
+  Nat.eqb (length a) (length b) &&
+  forallb (fun p => Nat.eqb (length (fst p)) (length (snd p)) &&
+                    forallb (fun q => Nat.eqb (fst q) (snd q)) (combine (fst p) (snd p))) (combine a b).
+Definition cq_eqb (a b : CQ) : bool := dy_is_zero (dy_sub (fst a) (fst b)) && dy_is_zero (dy_sub (snd a) (snd b)).
+Definition localised_ok (s : @space CQ) (supp : list nat) (nE : nat)
+    (l2g_impl : list (list nat)) (mult_impl : list (list CQ)) (nmult_impl : list CQ) (supp_impl : list nat) : bool :=
+  let ls := localised_space CQops s supp in
+  let ns := s_nshape s in
+  nat_lists_eqb (map (fun e => map (fun i => s_l2g ls e i) (seq 0 ns)) (seq 0 nE)) l2g_impl &&
+  forallb (fun e => forallb (fun i => cq_eqb (s_mult ls e i) (nth i (nth e mult_impl []) cq0)) (seq 0 ns)) (seq 0 nE) &&
+  forallb (fun e => cq_eqb (s_nmult ls e) (nth e nmult_impl cq0)) (seq 0 nE) &&
+  nat_lists_eqb [supp] [supp_impl].
